@@ -160,6 +160,8 @@ def hook(ex, func, argv, frame):
         return True, slice_from(ex, slice_to(ex, s, end), start)
     if g == '<std::io::ErrorKind as std::convert::Into>::into' or (g.endswith('as std::convert::Into>::into') and 'ErrorKind' in f):
         return True, Opaque('ioerror', k=a[0])
+    if g == '<std::vec::Vec as std::default::Default>::default':
+        return True, Seg()
     if g == 'std::vec::Vec::with_capacity' or g == 'std::vec::Vec::new':
         return True, Seg()
     if g == 'std::vec::Vec::reserve':
